@@ -239,11 +239,21 @@ type HCase struct {
 	Code  uint32 `json:"code"`
 	App   uint32 `json:"app"`
 	Ops   []Op   `json:"ops"`
+	// FailTail: at the end a Marshal that FAILS (its struct names an AVP the dictionary does not
+	// have, after a field that is fine) and one more AddAVP: whatever the failed call left in the
+	// message, the header length still equals the serialised size.
+	FailTail bool `json:"fail_tail,omitempty"`
+}
+
+// failing is a struct Marshal cannot complete: the second tag names no AVP.
+type failing struct {
+	Host  datatype.DiameterIdentity `avp:"Origin-Host"`
+	Wrong uint32                    `avp:"No-Such-AVP-Name"`
 }
 
 var hist = ev.Register(&ev.Prop[HCase]{
 	ID: "C02", Name: "history",
-	Rule: "histories of NewAVP(uint32|int|name) / AddAVP / InsertAVP / Marshal(struct) on one message under dict.Default with a model list of abstract AVPs; after EVERY step Header.MessageLength == len(Serialize()) == reference length, and the final image equals the reference encoding of the model; non-trivial = an InsertAVP or Marshal after at least one earlier operation",
+	Rule: "histories of NewAVP(uint32|int|name) / AddAVP / InsertAVP / Marshal(struct) on one message under dict.Default with a model list of abstract AVPs; after EVERY step Header.MessageLength == len(Serialize()) == reference length, and the final image equals the reference encoding of the model; 1 in 3 histories end with a Marshal that fails and one more AddAVP (header length == serialised size still); non-trivial = an InsertAVP or Marshal after at least one earlier operation",
 	Gen:  genHist, Run: runHist,
 	Classify: func(c HCase) (bool, []string) {
 		nt := false
@@ -328,6 +338,7 @@ func genHist(t *rapid.T) HCase {
 		}
 		c.Ops = append(c.Ops, op)
 	}
+	c.FailTail = rapid.IntRange(0, 2).Draw(t, "fail-tail") == 0
 	return c
 }
 
@@ -438,6 +449,23 @@ func runHist(c HCase) *ev.Failure {
 		}
 		if i == len(c.Ops)-1 && !bytes.Equal(b, ref) {
 			return ev.Failf(sigFor(model, "history-image-differs"), "final image differs from the reference encoding of the model at offset %d:\n lib % x\n ref % x", firstDiff(b, ref), clip(b), clip(ref))
+		}
+	}
+	if c.FailTail {
+		if err := m.Marshal(&failing{Host: "after.the.history.example", Wrong: 7}); err == nil {
+			return ev.Failf("marshal-error", "Marshal of a struct whose tag names no AVP of the dictionary returned no error")
+		}
+		for k, what := range []string{"a Marshal that failed", "a Marshal that failed and one more AddAVP"} {
+			if k == 1 {
+				m.AddAVP(diam.NewAVP(296, 0x40, 0, datatype.DiameterIdentity("example")))
+			}
+			b, err := m.Serialize()
+			if err != nil {
+				return ev.Failf("serialize-error", "after %s: %v", what, err)
+			}
+			if int(m.Header.MessageLength) != len(b) {
+				return ev.Failf("message-length-after-op", "after %s: Header.MessageLength=%d, len(Serialize())=%d", what, m.Header.MessageLength, len(b))
+			}
 		}
 	}
 	return nil
